@@ -314,7 +314,71 @@ def op_tls_pms(ctx, st):
     return r == 1, raw, raw
 
 
+def _x509_state(ctx):
+    from ..ref import x509 as X
+    st = _sm2_key(ctx)
+    st['name'] = X.name('c18 subject')[2:] if X.name('c18 subject')[1] < 0x80 else X.name('c18 subject')[3:]
+    pki = X.Pki('c18cms', 0)
+    priv, leaf = pki.leaf('signer-c18', X.KU_DIGITAL_SIGNATURE | X.KU_KEY_ENCIPHERMENT, priv=st['d'])
+    st['cert'] = leaf
+    return st
+
+
+def op_x509_cert_sign(ctx, st):
+    lib, L = ctx.lib, ctx.L
+    nm = ctx.inbuf(st['name'])
+    serial = ctx.inbuf(b'\x01\x02\x03\x04\x05')
+    out = ctx.buf(2048, fill=0xA5)
+    p = ctypes.c_void_p(out.ptr)
+    ol = ctypes.c_size_t(0)
+    import time as _t
+    now = FIXED_TIME
+    r = lib.x509_cert_sign_to_der(L['X509_version_v3'], serial, 5, L['OID_sm2sign_with_sm3'], nm, len(st['name']), now, now + 86400 * 30,
+                                  nm, len(st['name']), st['key'], None, 0, None, 0, None, 0, st['key'], R.DEFAULT_ID, 16,
+                                  ctypes.byref(p), ctypes.byref(ol))
+    raw = out.raw(min(ol.value, 2048)) if r == 1 else b''
+    for b in (nm, serial, out):
+        b.free()
+    return r == 1, raw, raw[-80:]          # the signature is the ephemeral part
+
+
+def op_cms_sign(ctx, st):
+    lib, L = ctx.lib, ctx.L
+    cert = ctx.inbuf(st['cert'])
+
+    class Signer(ctypes.Structure):
+        _fields_ = [('certs', ctypes.c_void_p), ('certs_len', ctypes.c_size_t), ('sign_key', ctypes.c_void_p)]
+    sg = Signer(cert.ptr, len(st['cert']), st['key'].ptr)
+    content = ctx.inbuf(b'content to be signed')
+    out = ctx.buf(4096, fill=0xA5)
+    ol = ctypes.c_size_t(4096)
+    r = lib.cms_sign(out, ctypes.byref(ol), ctypes.byref(sg), 1, L['OID_cms_data'], content, 20, None, 0)
+    raw = out.raw(min(ol.value, 4096)) if r == 1 else b''
+    for b in (cert, content, out):
+        b.free()
+    return r == 1, raw, raw[-90:]
+
+
+def op_cms_envelop(ctx, st):
+    lib, L = ctx.lib, ctx.L
+    cert = ctx.inbuf(st['cert'])
+    key = ctx.inbuf(bytes(range(16)))
+    iv = ctx.inbuf(bytes(16))
+    content = ctx.inbuf(b'content to be enveloped')
+    out = ctx.buf(4096, fill=0xA5)
+    ol = ctypes.c_size_t(4096)
+    r = lib.cms_envelop(out, ctypes.byref(ol), cert, len(st['cert']), L['OID_sm4_cbc'], key, 16, iv, 16, L['OID_cms_data'], content, 23,
+                        None, 0, None, 0)
+    raw = out.raw(min(ol.value, 4096)) if r == 1 else b''
+    for b in (cert, key, iv, content, out):
+        b.free()
+    return r == 1, raw, raw           # the SM2-wrapped key (C1) is the ephemeral part
+
+
 OPS = {
+    'x509_cert_sign_to_der': {'setup': _x509_state, 'call': op_x509_cert_sign, 'repeat_q': 12, 'repeat_t': 100},
+    'cms_sign': {'setup': _x509_state, 'call': op_cms_sign, 'repeat_q': 12, 'repeat_t': 100},
+    'cms_envelop': {'setup': _x509_state, 'call': op_cms_envelop, 'repeat_q': 12, 'repeat_t': 100},
     'sm2_key_generate': {'setup': None, 'call': op_sm2_keygen},
     'sm2_do_sign': {'setup': _sm2_key, 'call': op_sm2_do_sign},
     'sm2_sign': {'setup': _sm2_key, 'call': op_sm2_sign},
